@@ -42,6 +42,43 @@ func (c c04Cfg) String() string {
 type c04Payload struct {
 	Src string `json:"src"`
 	Cfg c04Cfg `json:"cfg"`
+	Ext int    `json:"ext,omitempty"`
+}
+
+// c04Ext selects the language the run in progress is about: 0 = the built-in subset; L > 0 = the subset
+// extended, on every builder involved (the interceptor-free one as well), by an infix operator OP
+// registered at level L (1 = LOWEST), a prefix operator PRE and a postfix operator BANG. Interception has
+// to be transparent for an extended language exactly as for the plain one.
+var c04Ext int
+
+func c04Extend(pb *parser.Builder) {
+	if c04Ext == 0 {
+		return
+	}
+	lb := pb.LexerBuilder
+	types := map[string]token.Type{}
+	for _, sp := range []string{"OP", "PRE", "BANG"} {
+		types[sp] = lb.RegisterTokenType("tt_" + sp)
+	}
+	lb.UseTokenInterceptor(func(l *lexer.Lexer, next func() token.Token) token.Token {
+		t := next()
+		if t.Type == token.IDENT {
+			if ty, ok := types[t.Literal]; ok {
+				t.Type = ty
+			}
+		}
+		return t
+	})
+	pb.RegisterInfixOperator(types["OP"], c04Ext, mkInfix)
+	pb.RegisterPrefixOperator(types["PRE"], mkPrefix)
+	pb.RegisterPostfixOperator(types["BANG"], mkPostfix)
+}
+
+// c04BasePB is the interceptor-free builder of the language of the run in progress.
+func c04BasePB(m Mode) *parser.Builder {
+	pb := newPB(m)
+	c04Extend(pb)
+	return pb
 }
 
 type c04Step struct {
@@ -74,6 +111,7 @@ func c04Build(cfg c04Cfg, m Mode, lg *c04Log) *parser.Builder {
 	if m.Smart {
 		pb.WithSmartSemicolon(true)
 	}
+	c04Extend(pb)
 	install := func(f func(pb *parser.Builder)) {
 		if cfg.Plugin {
 			pb.Install(f)
@@ -220,6 +258,14 @@ func leftmostTok(n any) (token.Token, bool) {
 			n = e.Left
 		case *ast.ExpressionStatement:
 			n = e.Expression
+		case *cNode:
+			if e.Kind == "cpre" {
+				return e.Tok, true
+			}
+			if isNilNode(e.L) {
+				return token.Token{}, false // malformed input: the operand is missing
+			}
+			n = e.L
 		default:
 			f := v.Elem().FieldByName("Token")
 			if !f.IsValid() {
@@ -416,6 +462,10 @@ func c04Coverage(prog *ast.Program, lg *c04Log, checkStmt, checkExpr bool) (kind
 			}
 		case *ast.LetExpression:
 			return needE(n.Value)
+		case *cNode:
+			// registered operators: the left operand is the spine; whether the operand handed out by right()
+			// is a step of its own is not constrained, its inside is
+			return walkE(n.L, false) && walkE(n.R, false)
 		}
 		return true
 	}
@@ -554,7 +604,7 @@ func c04Check(src string, cfg c04Cfg, m Mode, base *c04Base, wantSteps *[2]strin
 			lg = c04Log{}
 			o3 := parseWith(pb, src)
 			lg = saved
-			b2 := parseMode(src, m2)
+			b2 := parseWith(c04BasePB(m2), src)
 			if o3.Panic != "" || b2.Panic != "" {
 				continue
 			}
@@ -632,7 +682,7 @@ func c04Cfgs(level int) []c04Cfg {
 func c04RunInput(c *core.Ctx, src string, cfgs []c04Cfg, modes []Mode, size int) {
 	c.Cur(src)
 	for _, m := range modes {
-		base := c04Observe(newPB(m), src)
+		base := c04Observe(c04BasePB(m), src)
 		if base.panic != "" {
 			c.Inc("baseline_panics") // C10/C11's subject
 			continue
@@ -648,9 +698,13 @@ func c04RunInput(c *core.Ctx, src string, cfgs []c04Cfg, modes []Mode, size int)
 			c.Inc("config_runs")
 			k, d := c04Check(src, cfg, m, &base, &steps)
 			if k != "" && c.ShrinkOK(k) {
-				pl, _ := json.Marshal(c04Payload{src, cfg})
-				c.Violate(core.Violation{Kind: k, Config: cfg.String() + "," + m.String(), Case: fmt.Sprintf("%q", src), Detail: d, Payload: pl, Size: size,
-					Sig: k + "|" + cfg.String() + "|" + fmt.Sprintf("%q", src)})
+				pl, _ := json.Marshal(c04Payload{Src: src, Cfg: cfg, Ext: c04Ext})
+				ext := ""
+				if c04Ext > 0 {
+					ext = fmt.Sprintf(",OP@%d", c04Ext)
+				}
+				c.Violate(core.Violation{Kind: k, Config: cfg.String() + ext + "," + m.String(), Case: fmt.Sprintf("%q", src), Detail: d, Payload: pl, Size: size,
+					Sig: k + "|" + cfg.String() + ext + "|" + fmt.Sprintf("%q", src)})
 			}
 		}
 		if steps[1] != "" {
@@ -659,8 +713,53 @@ func c04RunInput(c *core.Ctx, src string, cfgs []c04Cfg, modes []Mode, size int)
 	}
 }
 
+// c04Extended: the same transparency, order and re-entrance clauses on an EXTENDED language: OP registered
+// as an infix operator at every level 1..12 in turn (with a prefix and a postfix operator beside it), all
+// token sequences over a small alphabet that mixes the registered spellings with built-in operators of
+// the neighbouring levels, in whole-expression and nested positions.
+func c04Extended(c *core.Ctx) {
+	defer func() { c04Ext = 0 }()
+	alpha := []string{"a", "OP", "PRE", "BANG", "=", "+", "(", ")", ",", "||"}
+	n := 3
+	if c.Thorough() {
+		n = 4
+	}
+	cfgs := []c04Cfg{{0, 0, "P", false}, {0, 0, "R", false}, {1, 1, "PR", false}, {0, 2, "RP", true}, {0, 0, "PPR", false}}
+	frames := []string{"%s", "let v = %s", "f(%s, %s)", "function g() { return %s }\nx = [%s]"}
+	for lvl := 1; lvl <= 12; lvl++ {
+		for L := 1; L <= n; L++ {
+			gen.EachSeq(len(alpha), L, func(idx []int) bool {
+				if !c.Next() {
+					return true
+				}
+				if c.Tick() {
+					return false
+				}
+				c04Ext = lvl
+				body := gen.Join(alpha, idx, " ")
+				uses := strings.Contains(body, "OP") || strings.Contains(body, "PRE") || strings.Contains(body, "BANG")
+				for fi, fr := range frames {
+					if fi > 0 && (!uses || L > 3) {
+						break
+					}
+					src := strings.ReplaceAll(fr, "%s", body)
+					c.Inc("extended_language_inputs")
+					c04RunInput(c, src, cfgs, []Mode{{}}, L)
+					if fi == 0 && L <= 3 {
+						c04RunInput(c, strings.ReplaceAll(body, " ", "\n"), cfgs[:2], []Mode{{}, {Smart: true}}, L)
+					}
+				}
+				c04Ext = 0
+				return true
+			})
+		}
+	}
+	c04Ext = 0
+}
+
 func c04Run(c *core.Ctx) {
 	defer func() { c.Count("interceptor_log_events", c04Events) }()
+	c04Extended(c)
 	full := c04Cfgs(1)
 	if c.Thorough() {
 		full = c04Cfgs(2)
@@ -769,10 +868,12 @@ func cloneExpr(e *gen.Node) *gen.Node { return gen.Clone(e) }
 func c04Replay(pl json.RawMessage) (string, []core.Violation) {
 	var p c04Payload
 	json.Unmarshal(pl, &p)
-	out := fmt.Sprintf("source %q configuration %s", p.Src, p.Cfg)
+	out := fmt.Sprintf("source %q configuration %s registered-operator level %d", p.Src, p.Cfg, p.Ext)
 	var vs []core.Violation
+	c04Ext = p.Ext
+	defer func() { c04Ext = 0 }()
 	for _, m := range Modes {
-		base := c04Observe(newPB(m), p.Src)
+		base := c04Observe(c04BasePB(m), p.Src)
 		if base.panic != "" {
 			continue
 		}
@@ -790,9 +891,9 @@ func c04Replay(pl json.RawMessage) (string, []core.Violation) {
 func init() {
 	core.Register(&core.PropSpec{
 		ID: "C04", Level: "model_checking",
-		Rule:     "configuration x input product with an interceptor-log model: configurations = token interceptor counts {1,2,8}, statement interceptor counts {1,2,3,8}, every sequence of pass-through/re-entrant expression interceptors of length <= 3 (4 thorough) plus 8-long ones, mixed sets, installed directly or through Install(plugin) (35 quick / 56 thorough; a reduced set of 4 re-entrance/order configurations on the largest universes); inputs = ALL token sequences <= 3 (4 thorough), valid or malformed, in space and LF layouts, every expression chain of depth <= 3 (as statement and as argument), statement families and nesting chains. Oracle per (input, configuration): tokens (lexer driven directly), tree dump with positions, Errors(), compact and pretty output identical to the interceptor-free run; each token interceptor entered exactly once per token request with Line/Column/CurrentChar on the first byte of the lexeme that request returns; statement/expression interceptor logs are complete runs 0..n-1 in installation order with one current token per run, properly nested; the step list of interceptor 0 is the same in every configuration; the entry token of a step is the leftmost token of the construct it returns; on error-free parses every statement of the tree and every operand outside the left spine was returned by exactly one step. states = distinct (input, mode) pairs, transitions = interceptor log events (token requests, statement and expression step entries/exits) checked against the log model",
+		Rule:     "configuration x input product with an interceptor-log model (run on the built-in subset and, extended family, on the subset plus an infix operator registered at each level 1..12 with a prefix and a postfix operator, all token sequences <= 3 (4 thorough) over 10 lexemes in 4 frames, against the interceptor-free builder with the same registrations): configurations = token interceptor counts {1,2,8}, statement interceptor counts {1,2,3,8}, every sequence of pass-through/re-entrant expression interceptors of length <= 3 (4 thorough) plus 8-long ones, mixed sets, installed directly or through Install(plugin) (35 quick / 56 thorough; a reduced set of 4 re-entrance/order configurations on the largest universes); inputs = ALL token sequences <= 3 (4 thorough), valid or malformed, in space and LF layouts, every expression chain of depth <= 3 (as statement and as argument), statement families and nesting chains. Oracle per (input, configuration): tokens (lexer driven directly), tree dump with positions, Errors(), compact and pretty output identical to the interceptor-free run; each token interceptor entered exactly once per token request with Line/Column/CurrentChar on the first byte of the lexeme that request returns; statement/expression interceptor logs are complete runs 0..n-1 in installation order with one current token per run, properly nested; the step list of interceptor 0 is the same in every configuration; the entry token of a step is the leftmost token of the construct it returns; on error-free parses every statement of the tree and every operand outside the left spine was returned by exactly one step. states = distinct (input, mode) pairs, transitions = interceptor log events (token requests, statement and expression step entries/exits) checked against the log model",
 		Assume:   []string{"a re-entrant interceptor ends the chain (it does not call next), so interceptors installed after it are not entered", "whether the property name after '.' is a parse step of its own is not constrained"},
-		QuickSec: 240, ThorSec: 1800, Run: c04Run, Replay: c04Replay,
+		QuickSec: 400, ThorSec: 1800, Run: c04Run, Replay: c04Replay,
 		Evals: "config_runs", Nontriv: "valid_inputs", States: "inputs", Trans: "interceptor_log_events",
 	})
 }
